@@ -132,8 +132,10 @@ func buildWorker(scratch string, bo buildOpts) (string, *instrument.Report, erro
 		}
 		return
 	}
+	skipMapOrder := map[string]bool{}
+	mapOrderRe := regexp.MustCompile(`in call to verifMapOrder, type \S+ of (?:\w+\.)*(\w+) does not match`)
 	for attempt := 0; ; attempt++ {
-		bin, rep, err := buildWorkerOnce(scratch, bo, exportFile, dropGen)
+		bin, rep, err := buildWorkerOnce(scratch, bo, exportFile, dropGen, skipMapOrder)
 		if rep != nil {
 			rep.Stubbed, rep.DroppedGen = stubbed, dropped
 		}
@@ -141,6 +143,14 @@ func buildWorker(scratch string, bo buildOpts) (string, *instrument.Report, erro
 			return bin, rep, err
 		}
 		progress := false
+		// a table the iteration-order seam is applied to is no map in this tree: the seam is left out for it
+		for _, m := range mapOrderRe.FindAllStringSubmatch(err.Error(), -1) {
+			if !skipMapOrder[m[1]] {
+				skipMapOrder[m[1]] = true
+				dropped = append(dropped, "map-order seam for "+m[1])
+				progress = true
+			}
+		}
 		// statements of the generated globals file the compiler rejects are left out
 		for _, tag := range instrument.GenLineTags(rep.GlobalsFile, linesOf(rep.GlobalsFile, err.Error())) {
 			if !dropGen[tag] {
@@ -165,11 +175,11 @@ func buildWorker(scratch string, bo buildOpts) (string, *instrument.Report, erro
 	}
 }
 
-func buildWorkerOnce(scratch string, bo buildOpts, exportFile string, dropGen map[string]bool) (string, *instrument.Report, error) {
+func buildWorkerOnce(scratch string, bo buildOpts, exportFile string, dropGen map[string]bool, skipMapOrder map[string]bool) (string, *instrument.Report, error) {
 	sub := filepath.Join(scratch, "ov"+bo.outName)
 	os.MkdirAll(sub, 0o755)
 	rep, err := instrument.Generate(instrument.Options{RepoDir: repoDir, BuildDir: "/repo", VerifDir: verifDir, OutDir: sub,
-		NoShim: bo.noShim, Dense: bo.dense, ExtraFiles: bo.extra, ExportFile: exportFile, DropGen: dropGen})
+		NoShim: bo.noShim, Dense: bo.dense, ExtraFiles: bo.extra, ExportFile: exportFile, DropGen: dropGen, SkipMapOrder: skipMapOrder})
 	if err != nil {
 		return "", nil, err
 	}
@@ -258,7 +268,7 @@ func loadKnown() []KnownFinding {
 // envPass: a worker pass whose process starts in another environment (what the package's init sees).
 type envPass struct {
 	name string
-	env  []string                    // ${SCRATCH} stands for the scratch directory of the run
+	env  []string                   // ${SCRATCH} stands for the scratch directory of the run
 	prep func(scratch string) error // creates what the environment refers to
 }
 
@@ -284,10 +294,10 @@ type checkSpec struct {
 	id            string
 	level         string
 	rule          string
-	shards        int  // 0 = NumCPU
-	gomax1        bool // run workers with GOMAXPROCS=1
-	testMode      bool // additionally run a test-mode worker pass (thorough)
-	testModeQuick bool // ... in the quick tier too
+	shards        int       // 0 = NumCPU
+	gomax1        bool      // run workers with GOMAXPROCS=1
+	testMode      bool      // additionally run a test-mode worker pass (thorough)
+	testModeQuick bool      // ... in the quick tier too
 	envPasses     []envPass // additional production-mode passes of build 0 in a different process environment
 	build         func(tier string) []buildOpts
 	deadlineQ     int
